@@ -173,15 +173,16 @@ class H2Protocol:
             data = await self.stream_buffers[stream_id].pop(chunk_size)
             if data:
                 self.connection.send_data(stream_id, data)
-                await self._flush()
             else:
                 self.priority.block(stream_id)
 
             if self.stream_buffers[stream_id].complete:
+                # With the last of the data, a sender released by
+                # the pop must not get ahead of the END_STREAM
                 self.connection.end_stream(stream_id)
-                await self._flush()
                 del self.stream_buffers[stream_id]
                 self.priority.remove_stream(stream_id)
+            await self._flush()
         except (h2.exceptions.StreamClosedError, KeyError, h2.exceptions.ProtocolError):
             # Stream or connection has closed whilst waiting to send
             # data, not a problem - just force close it.
